@@ -100,7 +100,8 @@ CLAIMED["C14"] = dict(
          "transfer (exact virtual clock); establishment / handshake timeouts are regenerated structural facts (connect under "
          "connection_establishment_timeout -> 502/302, TLS accept under tls_handshake_timeout). Tied by the differential run of the "
          "real DuplexPipe under the paused clock on activity patterns around T (incl. exact ties) with direct 'not before T, not "
-         "after 2T' oracles",
+         "after 2T' oracles; the session-level timer (client_listener_timeout) is modelled in Listener.v: closed by it only with no request in service, "
+         "idle sessions closed; tied by a fact and by real sessions with a tunnel transferring under a short listener timeout",
     note="partial: tokio's timer is modelled as exact (a late timer only delays a close); establishment/handshake timeouts are not "
          "driven here (C10 drives the 502/302 path); trusted as for C02",
     design="DESIGN.md 5 C14")
